@@ -43,6 +43,7 @@ def gen_equiv(seed: int, profile: str):
     if cur.group:
         cur = g.v_ungroup(cur) or cur
     pairs = []
+    backend_dependent = False
     nid = [0]
 
     def T():
@@ -161,9 +162,20 @@ def gen_equiv(seed: int, profile: str):
             xs = g.cols_of(cur, "int", hidden_ok=False) or g.cols_of(cur, "string", hidden_ok=False)
             if keys is None or not xs:
                 return _fallback(g, cur, profile)
-            hk = hard_key()
+            hk = hard_key() if r.random() < 0.6 else None
             if hk is not None:
                 keys = [hk] + keys
+            elif r.random() < 0.8:
+                # an *unmarked* key over a nullable column, ascending or descending: where the nulls go is the backend's choice,
+                # but the `arrange` verb and the `arrange=` argument of one backend must make the same choice
+                cands = [cid for cid in cur.vis_cids() if cur.scope[cid].nullable and cur.scope[cid].cls in ("int", "string", "bool")
+                         and cur.scope[cid].kind == "ewise" and not cur.scope[cid].const]
+                if cands:
+                    cid = r.choice(cands)
+                    e0 = {"col": [t, [n for n, c in cur.visible if c == cid][0]]}
+                    keys = [g.fn("descending", e0) if r.random() < 0.6 else e0] + keys
+                    backend_dependent = True
+                    g.features.add("unmarked_nullable_key")
             xc = r.choice(xs)
             x = {"col": [t, [n for n, c in cur.visible if c == xc][0]]}
             if r.random() < 0.7:
@@ -298,6 +310,8 @@ def gen_equiv(seed: int, profile: str):
         raise ValueError(kind)
     p = g.program()
     p["pairs"] = pairs
+    if backend_dependent:
+        p["backend_dependent"] = True
     meta = dict(features=sorted(g.features | {kind}), ops=sorted(g.ops_used), verbs=[s["op"] for s in g.stmts], final=pairs[0][0] if pairs else cur.tid)
     return p, meta
 
